@@ -43,15 +43,18 @@ func injectMenu(acts map[*spec][]flyt.Action, loopHorizon int, allKinds bool) fu
 				m = append(m, answer{action: a})
 			}
 		}
-		nerr := 0
-		for _, a := range h.answers {
+		// one injected failure per run; further ones only where it takes several
+		// failures to end the run: retries and the fallback of the SAME node visit
+		nerr, sameVisit := 0, 0
+		for i, a := range h.answers {
 			if a.err != nil {
 				nerr++
+				if pc := h.calls[i]; pc.node == c.node && pc.visit == c.visit {
+					sameVisit++
+				}
 			}
 		}
-		// one injected failure per run; a second one only where it takes two
-		// failures to end the run (retry / fallback of the same node)
-		if nerr == 0 || (nerr == 1 && (c.ph == pExec || c.ph == pFallback) && c.attempt+boolInt(c.ph == pFallback) > 0) {
+		if nerr == 0 || (nerr == sameVisit && (c.ph == pExec || c.ph == pFallback)) {
 			if allKinds {
 				for _, e := range injectKinds {
 					m = append(m, answer{err: e})
